@@ -25,10 +25,10 @@ func init() {
 
 const B = "/w/a"
 
-var Ops = []string{"Stat", "Lstat", "ReadDir", "ReadFile", "Mkdir", "MkdirAll", "WriteFile", "Remove", "RemoveAll", "RenameTo", "RenameFrom", "Chmod", "Truncate", "OpenFile", "Link", "Glob", "Chdir"}
+var Ops = []string{"Stat", "Lstat", "ReadDir", "ReadFile", "Mkdir", "MkdirAll", "WriteFile", "Remove", "RemoveAll", "RenameTo", "RenameFrom", "Chmod", "Truncate", "OpenFile", "Link", "Glob", "Chdir", "WalkDir"}
 
 // NumOps is len(Ops).
-const NumOps = 17
+const NumOps = 18
 
 func seedBase(v avfs.VFS) {
 	hx.Must(v.MkdirAll("/w/a/d", 0o755))
@@ -121,6 +121,20 @@ func do(v avfs.VFS, op, p, q string, flag int) (code int, result string, err err
 		for _, m := range ms {
 			result += m + ","
 		}
+		return hx.Code(e), result, e
+	case "WalkDir":
+		// every visit with the path given to the callback and, when the walk
+		// reports an error there, the paths that error embeds
+		e := v.WalkDir(p, func(path string, _ fs.DirEntry, werr error) error {
+			result += path
+			for _, ep := range errPaths(werr) {
+				// compared as clean absolute paths, like the error paths of the other operations
+				a, _ := v.Abs(ep)
+				result += "!" + a
+			}
+			result += ";"
+			return nil
+		})
 		return hx.Code(e), result, e
 	case "Chdir":
 		e := v.Chdir(p)
